@@ -6,7 +6,7 @@ CONSTANTS
   NP = 1
   Names = {"a"}
   Vals = {1}
-  Acts = {"CreateGroup", "CreateObject", "AddComment", "AddFile", "AddData", "Copy", "Move", "RemoveViaWorkspace", "RemoveViaParent", "Close", "Open", "Collect", "DropRef"}
+  Acts = {"CreateGroup", "CreateObject", "AddComment", "AddFile", "AddData", "Copy", "Move", "RemoveViaWorkspace", "RemoveViaParent", "RemovePair", "Close", "Open", "Collect", "DropRef"}
   Deviations = {"CloseKeepsOrphans"}
   MaxDepth = 6
 CONSTRAINT DepthBound
